@@ -51,23 +51,23 @@ def table(dav):
         checks.append(dav(pid, TEXT.get(pid, TEXT["C01"]),
                           "TLA+ model checking (TLC) + trace validation of recorded executions against the spec"))
     checks.append(other("C04", "crash", "fault_enumeration",
-        "Every mutating file-system event of create/replace/no-op/delete/property-set on tree-git, bare-git and vdir stores (with varying prior contents, both metadata back ends) is a crash point: the store directory as it is just before the event, plus torn variants of the file being written, is re-opened by the real code and read completely (store API operations, the same operations arriving as HTTP requests, and operations preceded by earlier requests of the same process); TLC judges each image against CrashTrace.tla (old-or-new, opens, no reference to a missing object, acknowledged writes durable). The write protocols themselves are model checked exhaustively in StoreProto.tla, and the recorded gate sequences are validated against it.",
+        "Every mutating file-system event of create/replace/no-op/delete/property-set on tree-git, bare-git and vdir stores (with varying prior contents, both metadata back ends) is a crash point: the store directory as it is just before the event, plus torn variants of the file being written, is re-opened by the real code and read completely (store API operations, the same operations arriving as HTTP requests, and operations preceded by earlier requests of the same process); TLC judges each image against CrashTrace.tla (old-or-new, opens, no reference to a missing object, acknowledged writes durable). The write protocols themselves are model checked exhaustively in StoreProto.tla, and the recorded gate sequences are validated against it. Death delivered as an exception (SIGINT) is injected at sampled executed lines of the store / git code and judged like a crash image; every operation is repeated with the temporary directory on another file system than the data.",
         "TLA+ model checking of the write protocol (StoreProto) + exhaustive crash-point enumeration on the real code judged by a TLA+ trace spec",
         "File-system operations persist in program order (no fsync reordering); torn writes sampled empty/half; audit-hook events are the crash points (kills between two Python-level events inside one C call are not distinguished); git CLI fsck as auditor; harness/compat.py."))
     checks.append(other("C05", "race", "model_checking",
-        "TLC explores all interleavings of two writers in the implementation-shaped model StoreProto.tla (one action per file-system step) against the linearizability property Lin.tla; the real tree-git and bare-git stores are then run under systematically enumerated interleavings of their file-system steps (audit-hook scheduler: every preemption point, thorough: two preemptions; shared store object, separate store objects, and a store object opened while the other writer is in its critical section; a sample also as real HTTP requests to an aiohttp server) and every execution - with a follow-up operation, the served views and the etag each put answered with - is judged by TLC against Lin.tla; histories without overlap issued in turn through two long-lived store objects are judged sequentially (SeqVerdict). Races that the unchanged code has are listed in known_findings.json by store kind, operation kinds, clause and window.",
+        "TLC explores all interleavings of two writers in the implementation-shaped model StoreProto.tla (one action per file-system step) against the linearizability property Lin.tla; the real tree-git and bare-git stores are then run under systematically enumerated interleavings of their file-system steps (audit-hook scheduler: every preemption point, thorough: two preemptions; shared store object, separate store objects, and a store object opened while the other writer is in its critical section; a sample also as real HTTP requests to an aiohttp server) and every execution - with a follow-up operation, the served views and the etag each put answered with - is judged by TLC against Lin.tla; histories without overlap issued in turn through two long-lived store objects are judged sequentially (SeqVerdict). Races that the unchanged code has are listed in known_findings.json by store kind, operation kinds, clause and window. Every third run is followed by a put of a third name, every third by a delete of a name the pair wrote; half of the runs use a collection whose files are an hour old.",
         "TLA+ model checking (TLC) of the write protocol + deterministic schedule enumeration on the real code judged by a TLA+ linearizability spec",
         "Preemption only at file-system events (audit hook); pure-Python sections between two events are not scheduled; exceptions raised under ref-lock contention count as a locked refusal if they had no effect; harness/compat.py."))
     checks.append(other("C10", "index", "model_checking",
-        "TLC checks exhaustively (small scope, thresholds 0 and 1) that the index protocol of IndexMgr.tla - one action per step of AutoIndexManager/MemoryIndex/_iter_with_filter_indexes - is transparent under the soundness assumption on extracted values, and shows that a lossy extraction breaks it. TLC-simulated histories are replayed on the real store (Store API on tree/bare/memory/vdir and HTTP REPORT, thresholds 0,1,2,default) and random histories (explicit operation lists) over 19 filters and 20 body classes (several components, TZID, DATE, empty and zero valued properties, unparseable files) are executed; every query is compared by TLC (IndexTrace.tla) with a history-free evaluation, and the real manager state (desired counters, available keys) is checked against the model step by step.",
+        "TLC checks exhaustively (small scope, thresholds 0 and 1) that the index protocol of IndexMgr.tla - one action per step of AutoIndexManager/MemoryIndex/_iter_with_filter_indexes - is transparent under the soundness assumption on extracted values, and shows that a lossy extraction breaks it. TLC-simulated histories are replayed on the real store (Store API on tree/bare/memory/vdir and HTTP REPORT, thresholds 0,1,2,default) and random histories (explicit operation lists) over 19 filters and 20 body classes (several components, TZID, DATE, empty and zero valued properties, unparseable files) are executed; every query is compared by TLC (IndexTrace.tla) with a history-free evaluation, and the real manager state (desired counters, available keys) is checked against the model step by step. Directed histories (damaged members repaired under their name, mixed components, escaped text) run at every level and threshold.",
         "TLA+ model checking (TLC) of the index protocol + trace validation of recorded query histories against the spec",
         "The oracle is the real filter.check() run by a store object that never answered a query (C11 covers check() itself); known findings identified by the classes of the differing members; harness/compat.py."))
     checks.append(other("C11", "calquery", "exploration",
-        "CalQuery.tla transcribes RFC 4791 9.7.1-9.7.5 and the 9.9 time-range tables as TLA+ operators; TLC enumerates the complete finite case space (every presence/ordering cell of the VEVENT/VTODO/VJOURNAL/VFREEBUSY tables on a 7-point grid with both range boundaries inside: 308 component cases; 450 filter-shape x object-shape cases) with the expected verdicts. Every case is concretised in UTC, floating, TZID and DATE renderings under three effective time zones, uploaded and queried through REPORT calendar-query on the real server; TLC re-evaluates the operators on the observed results (CalQueryTrace.tla). This is an exhaustive decision-table check with TLC as enumerator and oracle, not a behavioural model: claimed as exploration (exhaustive over the stated finite grid).",
+        "CalQuery.tla transcribes RFC 4791 9.7.1-9.7.5 and the 9.9 time-range tables as TLA+ operators; TLC enumerates the complete finite case space (every presence/ordering cell of the VEVENT/VTODO/VJOURNAL/VFREEBUSY tables on a 7-point grid with both range boundaries inside: 308 component cases; 450 filter-shape x object-shape cases) with the expected verdicts. Every case is concretised in UTC, floating, TZID and DATE renderings under three effective time zones, uploaded and queried through REPORT calendar-query on the real server; TLC re-evaluates the operators on the observed results (CalQueryTrace.tla). The structural table is answered three times: with the default index threshold, from the index from the first query on, and never from the index. This is an exhaustive decision-table check with TLC as enumerator and oracle, not a behavioural model: claimed as exploration (exhaustive over the stated finite grid).",
         "TLA+ transcription of the RFC decision tables, enumerated by TLC and compared case by case with the implementation",
         "Recurrence expansion outside the grid; date arithmetic of icalendar/zoneinfo trusted; a wrong verdict is identified by its table coordinates; harness/compat.py."))
     checks.append(other("C12", "cardquery", "exploration",
-        "CardQuery.tla transcribes RFC 6352 10.5 (anyof/allof, prop-filter presence / is-not-defined / test attribute, text-match with four match types, negation and three collations, param-filter) over texts on a six-letter alphabet with case pairs, non-ASCII letters and the blank (needles may begin or end with it); TLC enumerates every text-match x value case (quick: values up to length 2, thorough: 3) and a table of filter structures x multi-instance / parameterised cards with expected verdicts, plus nresults limits. Each query is executed through REPORT addressbook-query on the real server (both front ends) and the observed result sets are re-judged by TLC (CardQueryTrace.tla); address-data is compared with GET. Exhaustive decision-table check, claimed as exploration.",
+        "CardQuery.tla transcribes RFC 6352 10.5 (anyof/allof, prop-filter presence / is-not-defined / test attribute, text-match with four match types, negation and three collations, param-filter) over texts on a six-letter alphabet with case pairs, non-ASCII letters and the blank (needles may begin or end with it); TLC enumerates every text-match x value case (quick: values up to length 2, thorough: 3) and a table of filter structures x multi-instance / parameterised cards with expected verdicts, plus nresults limits. Each query is executed through REPORT addressbook-query on the real server (both front ends) and the observed result sets are re-judged by TLC (CardQueryTrace.tla); address-data is compared with GET. Cards carry text outside the BMP. Exhaustive decision-table check, claimed as exploration.",
         "TLA+ transcription of the RFC matching rules, enumerated by TLC and compared case by case with the implementation",
         "vCard 3.0 cards with FN/N/EMAIL/NOTE only; a wrong verdict is identified by match type, collation, negation and the needle/value relation; harness/compat.py."))
     checks.append(other("C13", "pathmap", "exploration",
